@@ -185,7 +185,7 @@ def main(argv):
         ck.broken.append("lean: OlVerif.Props.C10 does not build (the probed storage kind of option values makes the purity theorems false, or the model changed): " + b["log"][-1200:])
     else:
         ck.audit("OlVerif/Audit/C10.lean")
-    nprogs = 8 if ck.tier == "quick" else 24
+    nprogs = 13 if ck.tier == "quick" else 28
     progs = [gen_prog.gen_program(ck.rng, size=ck.rng.randrange(3, 9))[0] for _ in range(nprogs)]
     progs[1] = "for i in [1, 2, 3]:\n    if i == 2:\n        break\n    print(i)\nelse:\n    print('no')\n"
     progs[2] = "n = 2\nwhile n:\n    n -= 1\nimport math\nprint(math.floor(2.5))\n"
@@ -195,12 +195,25 @@ def main(argv):
     progs[5] = 'a = f"""{len("it\'s")}{len(\'say "hi"\')}"""\nprint(a)\n'
     progs[6] = 'msg = "it\'s"\nq = \'say "hi"\'\nprint(msg, q, f"{msg!r:>8}")\n'
     progs[0] = "def f(alpha, beta, gamma, delta):\n    def g():\n        return alpha, beta, gamma, delta\n    return g\nprint(f(1, 2, 3, 4)())\n"
+    # pairs in which what one conversion saw could leak into the next: a name that is a comprehension target / lambda parameter in
+    # one program and a captured variable read inside a comprehension / lambda in the other; equal but different literals
+    progs[7] = "print([n for n in range(3)], {k: v for k, v in [(1, 2)]}, (lambda w, *a, **kw: w)(1))\n"
+    progs[8] = ("def f(w=3):\n    n = 5\n    k = 6\n    def g():\n        nonlocal k\n        k += 1\n        return n, k, w\n"
+                "    return [n for _ in [0]], [(n, k) for v in [1]], (lambda: (n, k, w))(), {n: k for _ in [0]}, g()\nprint(f())\n")
+    progs[9] = "a = True\nb = 1 if True else 0\nc = False or 0\nprint(a, b, c)\n"
+    progs[10] = "t = 2 * 1.0\nu = 0.0 + 1\nz = 0j\nprint(t, u, z, 1, 0)\n"
+    progs[11] = "class K:\n    n = 1\n    k = [n for n in [2]]\n    def m(self, n=n):\n        return [n for _ in [0]]\nprint(K.n, K.k, K().m())\n"
     try:
         F = fresh_table(progs, per_conversion=(ck.tier == "thorough"))
     except Exception as e:
         ck.broken.append("fresh-process reference could not be computed: " + str(e)[:500]); F = {}
     nh = 400 if ck.tier == "quick" else 12000
     hists = [random_history(ck.rng, nprogs, ck.rng.randrange(1, 7)) for _ in range(nh)]
+    # every ordered pair of the curated programs, with one option object and with the default options
+    for i in range(12):
+        for j in range(12):
+            if i != j and (ck.tier == "thorough" or (i >= 7 or j >= 7)):
+                hists.append([["new"], ["set", 0, "unparser", "oneliner"], ["convert", i, 0], ["convert", j, 0], ["convertDefault", i], ["convertDefault", j]])
     model = None
     if b["driver_ok"]:
         model = [r.get("outs") for r in leandrv.run_batch([{"op": "api", "ops": h} for h in hists])]
